@@ -137,12 +137,13 @@ def const_strings(fx, files=('crates/erg_compiler/context/initialize/mod.rs',)):
     return out
 
 
-def declared_methods(fx):
+def declared_methods(fx, all_classes=False):
     """[(class, method python/erg name, return class, line)] for methods registered on the numeric class contexts in init_builtin_classes
     whose signature is built with fnN_met(Self, .., Ret)"""
     f = fx.fn(CLASSES, 'Context::init_builtin_classes')
     consts = const_strings(fx)
     cls_of = {}
+    sig_of = {}
     rows = []
     for st in T.stmts_of(f['body']):
         st = T.unsemi(st)
@@ -151,12 +152,20 @@ def declared_methods(fx):
             if init.get('k') == 'Call' and T.last_seg(init.get('fn') or '') in ('builtin_mono_class', 'builtin_poly_class') and init['a']:
                 nm = T.show(T.peel(init['a'][0]))
                 cls_of[st['pat']['n']] = consts.get(nm, nm)
-        elif st.get('k') == 'MCall' and st['n'] in ('register_py_builtin', 'register_builtin_erg_impl', 'register_builtin_py_impl') and len(st['a']) >= 2:
+            if init.get('k') == 'Call' and T.last_seg(init.get('fn') or '') in ('fn0_met', 'fn1_met', 'fn_met', 'fn1_kw_met'):
+                sig_of[st['pat']['n']] = init
+        elif st.get('k') == 'MCall' and st['n'] in ('register_py_builtin', 'register_builtin_erg_impl', 'register_builtin_py_impl', 'register_py_builtin_const') and len(st['a']) >= 2:
             recv = T.show(st['r'])
             cls = cls_of.get(recv)
-            if cls not in NUMERIC:
+            if cls not in NUMERIC and not (all_classes and cls):
                 continue
-            sig = T.peel(st['a'][1])
+            sig = T.peel(st['a'][2 if st['n'] == 'register_py_builtin_const' and len(st['a']) > 2 else 1])
+            if sig.get('k') == 'Call' and (sig.get('fn') or '').endswith('::Some') and sig['a']:
+                sig = T.peel(sig['a'][0])
+            if sig.get('k') == 'MCall' and sig['n'] == 'clone':
+                sig = T.peel(sig['r'])
+            if sig.get('k') == 'Local' and sig['n'] in sig_of:
+                sig = sig_of[sig['n']]
             if sig.get('k') == 'Call' and T.last_seg(sig.get('fn') or '') in ('fn0_met', 'fn1_met', 'fn_met', 'fn1_kw_met') and sig['a']:
                 ret = tyname(sig['a'][-1])
                 name_const = T.show(T.peel(st['a'][0]))
